@@ -146,6 +146,23 @@ def check(ctx, rep):
            seen == {'self.new_integer().from_hex(word[2:])': ["word[:2] == b'&H'"],
                     "self.new_integer().from_oct(word[2:] if word[1:2] == b'O' else word[1:])": ["word[:1] == b'&'"]},
            repr(seen), ctx.where(fr))
+    # double -> single goes through Float._normalise: after rounding, a mantissa that reached the upper limit
+    # (2 * the implicit-one mask) is renormalised; every test against that limit in Float is `man >= limit`,
+    # the mantissa range being [mask, limit)  (sibling agreement over all carry / round-up sites)
+    cmp_sites = []
+    for fn in ctx.idx.functions(N):
+        for c in own_nodes(fn):
+            if isinstance(c, ast.Compare) and len(c.ops) == 1 and 'self._den_upper' in [norm(c.left), norm(c.comparators[0])] and isinstance(c._parent, ast.If):
+                cmp_sites.append((fn, c))
+    for fn, c in cmp_sites:
+        ok = norm(c.comparators[0]) == 'self._den_upper' and isinstance(c.ops[0], ast.GtE)
+        rep.ob('normalise.mantissa-below-limit', '%s: %s' % (fn.name, norm(c)), ok,
+               'a mantissa equal to the limit is kept: it does not fit the mantissa field and the packed number loses its sign / exponent', ctx.where(c))
+    rep.floor('normalise.mantissa-below-limit', len(cmp_sites), 3, 'tests against _den_upper')
+    for cls in ('Single', 'Double'):
+        up = ctx.cf.fold(ctx.idx.locate('%s:%s._den_upper' % (N, cls)), ctx.mod(N), {'_den_mask': ctx.cf.fold(ctx.idx.locate('%s:%s._den_mask' % (N, cls)), ctx.mod(N))})
+        mask = ctx.cf.fold(ctx.idx.locate('%s:%s._den_mask' % (N, cls)), ctx.mod(N))
+        rep.ob('normalise.limit-is-twice-mask', '%s._den_upper = 2 * _den_mask' % cls, up == 2 * mask, '%r %r' % (up, mask), N)
 
 
 def variants(ctx):
@@ -155,6 +172,8 @@ def variants(ctx):
         return lambda tree: f(mu.find_def(tree, fname))
 
     return [
+        Va('normalise-keeps-mantissa-at-limit', 'break', N,
+           in_fn('Float._normalise', lambda fn: mu.replace_expr(fn, mu.text_is('man >= self._den_upper'), 'man > self._den_upper')), expect='normalise.mantissa-below-limit'),
         Va('mks-goes-through-double', 'break', V,
            in_fn('mks_', lambda fn: mu.replace_expr(fn, mu.text_is('to_single(x)'), 'to_double(x)')), expect='mk.verbatim'),
         Va('cvs-reads-8', 'break', V,
